@@ -214,11 +214,11 @@ def run_impl(inp, extra_kwargs=None, predictor=None):
 # ---------------------------------------------------------------------------------------------
 # monitor request
 
-def cfg_tokens(inp, maxsize=30, maxn=10, vel=None, drop=False):
+def cfg_tokens(inp, maxsize=30, maxn=10, vel=None, drop=False, opt=True):
     w, B = weights(inp["sr"])
-    return "w=%s B=%d mem=%d maxn=%d maxsize=%d vel=%s drop=%d" % (
+    return "w=%s B=%d mem=%d maxn=%d maxsize=%d vel=%s drop=%d opt=%d" % (
         ",".join(map(str, w)), B, inp["memory"], maxn, maxsize,
-        "-" if not vel else ",".join(str(int(v)) for v in vel), 1 if drop else 0)
+        "-" if not vel else ",".join(str(int(v)) for v in vel), 1 if drop else 0, 1 if opt else 0)
 
 
 def lrun_line(inp, levels, **kw):
@@ -345,7 +345,8 @@ def run_movie_case(ctx, inp, want=("valid", "optimal"), prop="C01", maxsize=30):
     if levels == "oversize":
         res.stat("link_oversize")     # `link` raised: no partial output to judge
         return res
-    line = lrun_line(inp, levels, maxsize=maxsize)
+    line = lrun_line(inp, levels, maxsize=maxsize, drop=(inp.get("strategy") == "drop"),
+                     opt=("optimal" in want))
     m = common.kv(ctx.ask(line))
     res.stat("movies")
     res.stat("entry_" + inp.get("entry", "link_iter"))
